@@ -56,6 +56,20 @@ def arr_sort(ndim):
 
 
 # ----------------------------------------------------------------------------- values
+class CArray:
+    """Concrete heap cell of the cross-check mode: a Python dict index-tuple -> z3 real term (ground)."""
+
+    def __init__(self, cells):
+        self.cells = dict(cells)
+
+
+def _cint(i):
+    v = z3.simplify(_int(i))
+    if not z3.is_int_value(v):
+        raise Unsupported(f"concrete mode: index {i} is not a numeral")
+    return v.as_long()
+
+
 class Arr:
     """Reference to an array location of the heap, with a symbolic shape."""
 
@@ -67,10 +81,20 @@ class Arr:
         return len(self.shape)
 
     def sel(self, heap, *idx):
-        return z3.Select(heap[self.loc], *[_int(i) for i in idx])
+        h = heap[self.loc]
+        if isinstance(h, CArray):
+            return h.cells[tuple(_cint(i) for i in idx)]
+        return z3.Select(h, *[_int(i) for i in idx])
 
     def store(self, heap, idx, v):
-        heap[self.loc] = z3.Store(heap[self.loc], *[_int(i) for i in idx], _real(v))
+        h = heap[self.loc]
+        if isinstance(h, CArray):
+            key = tuple(_cint(i) for i in idx)
+            if key not in h.cells:
+                raise IndexError(key)
+            heap[self.loc] = CArray({**h.cells, key: _real(v)})
+            return
+        heap[self.loc] = z3.Store(h, *[_int(i) for i in idx], _real(v))
 
     def base(self):
         return self
@@ -477,9 +501,15 @@ class _Exec:
         self.entry: State | None = None
         self.ghost = {}
         self.loops = {}
+        self.concrete = False  # cross-check mode: ground values, loops unrolled, no obligations
 
     # ---- obligations
     def oblige(self, name, st: State, goal, where=""):
+        if self.concrete:
+            g = z3.simplify(_bool(goal))
+            if not z3.is_true(g):
+                raise Unsupported(f"concrete mode: {name} does not hold ({g})")
+            return
         self.obligations.append(Obligation(name, st.pc, goal, where))
 
     # ---- expressions
@@ -789,6 +819,12 @@ class _Exec:
                 self.oblige(f"column_store_lengths_agree@line{node.lineno}", st, _int(value.shape[0]) == _int(a.shape[0]))
                 heap_now = dict(st.heap)  # terms are values: selecting through this copy is a snapshot of the right-hand side
                 base = a.base()
+                if self.concrete:
+                    rows = _cint(a.shape[0])
+                    vals = [value.sel(heap_now, z3.IntVal(r)) for r in range(rows)]
+                    for r in range(rows):
+                        a.store(st.heap, (z3.IntVal(r), c), vals[r])
+                    return
                 old_term = st.heap[base.loc]
                 new_term = fresh("colstore", arr_sort(base.ndim))
                 pre = list(getattr(a, "prefix", ()))
@@ -822,6 +858,13 @@ class _Exec:
 
     def s_If(self, node, st):
         c = self.eval(node.test, st)
+        if self.concrete and not isinstance(c, bool):
+            g = z3.simplify(_bool(c))
+            if not (z3.is_true(g) or z3.is_false(g)):
+                from pyvc.explore import eval_term
+
+                g = z3.BoolVal(bool(eval_term(_bool(c), {})))  # conditions over exp/erf: decided numerically
+            c = z3.is_true(g)
         if isinstance(c, bool):
             return self.run_block(node.body if c else node.orelse, [st])
         c = _bool(c)
@@ -842,6 +885,14 @@ class _Exec:
         d = self.dotted(it.func) if isinstance(it, ast.Call) else None
         if d not in ("range", "nb.prange", "numba.prange") or len(it.args) != 1 or it.keywords or not isinstance(node.target, ast.Name):
             raise Unsupported(f"loop form at line {node.lineno}: only `for i in range(e)` / `nb.prange(e)`")
+        if self.concrete:
+            n = _cint(self.eval(it.args[0], st))
+            states = [st]
+            for k in range(max(n, 0)):
+                for s_ in states:
+                    s_.vars[node.target.id] = z3.IntVal(k)
+                states = self.run_block(node.body, states)
+            return states
         ordinal = self.loop_ordinal
         self.loop_ordinal += 1
         inv = self.spec.invariants.get(ordinal)
@@ -903,7 +954,7 @@ class _Exec:
         for name in mod_names:
             if name not in st.vars:
                 out.vars.pop(name, None)
-        out.pc += [n >= 0, inv_at(out, n)]
+        out.pc += [inv_at(out, z3.If(n >= 0, n, 0))]  # range(n) with n <= 0 runs no iteration: exit index 0
         return [out]
 
 
@@ -1055,6 +1106,15 @@ def call_contract(spec: FnSpec, ghost_args=None):
     def call(ex: _Exec, st: State, args, kwargs, node):
         if kwargs or len(args) != len(spec.params):
             raise Unsupported(f"call of {spec.name} with keywords / wrong arity")
+        if ex.concrete:
+            sub = _Exec(spec)
+            sub.concrete = True
+            st2 = State({n: v for (n, _), v in zip(spec.params, args)}, st.heap, [])
+            st2.heap = st.heap  # the callee works on the caller's heap
+            fdef = ast.parse(spec.source()).body[0]
+            sub.entry = st2
+            sub.run_block(fdef.body, [st2])
+            return None
         vars_ = {n: v for (n, _), v in zip(spec.params, args)}
         for (n, kind), v in zip(spec.params, args):
             if kind.startswith("arr") and not (isinstance(v, (Arr, View)) and v.ndim == int(kind[3:])):
@@ -1081,3 +1141,50 @@ def call_contract(spec: FnSpec, ghost_args=None):
         return None
 
     return call
+
+
+# ----------------------------------------------------------------------------- cross-check against CPython
+def run_concrete(spec: FnSpec, args: dict):
+    """Execute the AST of `spec.fn` with this executor on *concrete* inputs (numpy arrays / numbers): loops unrolled,
+    conditions decided, no contracts of loops used.  Returns {array parameter: numpy array of floats after the run}.
+    Compared with the result of CPython running the real function, this checks the executor's reading of the
+    language (precedence, augmented assignment, views, column stores, elementwise temporaries)."""
+    import numpy as np
+    from fractions import Fraction
+
+    from pyvc.explore import eval_term
+
+    ex = _Exec(spec)
+    ex.concrete = True
+    st = State()
+    for name, kind in spec.params:
+        v = args[name]
+        if isinstance(kind, str) and kind.startswith("arr"):
+            a = np.asarray(v, dtype=float)
+            loc = f"{name}@c"
+            st.heap[loc] = CArray({idx: z3.RealVal(Fraction(float(a[idx]))) for idx in np.ndindex(a.shape)})
+            st.vars[name] = Arr(loc, [z3.IntVal(d) for d in a.shape])
+        elif kind == "int":
+            st.vars[name] = z3.IntVal(int(v))
+        elif kind == "real":
+            st.vars[name] = z3.RealVal(Fraction(float(v)))
+        elif kind == "bool":
+            st.vars[name] = bool(v)
+        else:
+            st.vars[name] = v
+    ex.entry = st
+    fdef = ast.parse(spec.source()).body[0]
+    ends = ex.run_block(fdef.body, [st]) + [s_ for s_, _ in ex.returns]
+    if len(ends) != 1:
+        raise Unsupported(f"concrete mode: {len(ends)} final states")
+    end = ends[0]
+    out = {}
+    for name, kind in spec.params:
+        if isinstance(kind, str) and kind.startswith("arr"):
+            a = np.asarray(args[name], dtype=float)
+            res = np.empty(a.shape)
+            cells = end.heap[f"{name}@c"].cells
+            for idx in np.ndindex(a.shape):
+                res[idx] = eval_term(cells[idx], {})
+            out[name] = res
+    return out
